@@ -10,8 +10,9 @@
    decoders make of them ([typed_decode], [unmarshal_text]): every textual spelling of the hex fields
    (upper / lower case, 0x prefix) is covered.  [kek_supported k]: no KEK, or an AES-128 KEK.
    [cf_canonical cf]: no CFList, or 16 bytes that decode and re-encode to themselves; C16_cflist shows
-   that every well-formed CFList is (any 16 octets of a type other than 1; type 1 = channel masks with
-   the three RFU octets zero). *)
+   that every well-formed CFList is (any 16 octets of a type other than 1; type 1 = six channel masks with
+   the three RFU octets zero; C16_cflist_masks_any_rfu: with other RFU octets the request still succeeds
+   and the RFU octets come back as zero). *)
 From Coq Require Import List NArith ZArith Bool Permutation.
 From LW Require Import Base.Outcome Base.Bytes Base.Hex Crypto.AES Crypto.CMAC Mac.Commands Frame.Model
   Backend.KeyEnvelope Backend.JoinServer Backend.Device Backend.JoinServerProofs Backend.JoinServerCFList
@@ -63,12 +64,23 @@ Theorem C16_join_conformant_is : forall cfg r d dn netid devaddr dls rxd cf jn n
 Proof. exact join_conformant_is. Qed.
 Print Assumptions C16_join_conformant_is.
 
-(* every well-formed CFList is echoed byte for byte (hypothesis [cf_canonical] above) *)
+(* every well-formed CFList is echoed byte for byte (hypothesis [cf_canonical] above): any 16 octets
+   of a type other than 1; for type 1 (six channel masks) the three RFU octets 12..14 must be zero, because
+   the decoder ignores them and the encoder writes zeros *)
 Theorem C16_cflist : forall c,
   length c = 16%nat /\ bytes c /\ (nth 15 c 0 = 1 -> nth 12 c 0 = 0 /\ nth 13 c 0 = 0 /\ nth 14 c 0 = 0) ->
   cf_canonical c.
 Proof. exact cflist_wellformed_canonical. Qed.
 Print Assumptions C16_cflist.
+
+(* a channel-mask CFList with ANY RFU octets decodes to at most six masks and re-encodes (before /repo fix
+   e2c2b92 octets 12..13 were read as a seventh mask, which the encoder refused: the join failed with
+   Other): the join-accept then carries the twelve mask octets and zero RFU octets *)
+Theorem C16_cflist_masks_any_rfu : forall c, length c = 16%nat -> bytes c -> nth 15 c 0 = 1 ->
+  exists l ms, cflist_unmarshal c = Ok l /\ cf_payload l = CFPMasks ms /\ (length ms <= 6)%nat /\
+               cflist_marshal l = Ok (firstn 12 c ++ [0; 0; 0; 1]).
+Proof. exact cflist_masks_decode. Qed.
+Print Assumptions C16_cflist_masks_any_rfu.
 
 (* a join-request of a known device whose four MIC bytes are not the right ones: MICFailed, nothing else in the answer *)
 Theorem C16_mic_failed : forall cfg r je de dn m dk devaddr dl rxd cf nskek aslabel askek netid joineui,
